@@ -1,5 +1,6 @@
 """C06 — parameterised rules behave like their expansion."""
 import itertools
+import re
 import random
 
 from .. import core, gramrun
@@ -99,6 +100,20 @@ SITES = [
      'let ys = Expect(["x"* |> `tuple`]) in let xs = ["x"*] in [Expect("a" >> `ys`), "a" >> `xs`]'),
     ('let p = K in let q = K in [Expect(Val(p)), Val(q)]', 'let p = K in let q = K in [Expect("a" >> `p`), "a" >> `q`]'),
     ('let p = K in let q = K in (Val(p) << "1" | Val(q))', 'let p = K in let q = K in (("a" >> `p`) << "1" | ("a" >> `q`))'),
+    # ... the same through KEYWORD arguments
+    ('[Expect(Val(v=`1`)), Val(v=`True`)]', '[Expect("a" >> `1`), "a" >> `True`]'),
+    ('[Expect(Val(v=`True`)), Val(v=`1`), Opt(Val(v=`0`))]', '[Expect("a" >> `True`), "a" >> `1`, Opt("a" >> `0`)]'),
+    ('let xs = Expect("x"*) in let ys = ("x"* |> `tuple`) in [Expect(Val(v=xs)), Val(v=ys)]',
+     'let xs = Expect("x"*) in let ys = ("x"* |> `tuple`) in [Expect("a" >> `xs`), "a" >> `ys`]'),
+    ('let p = K in let q = K in [Expect(Val(v=p)), Val(v=q)]', 'let p = K in let q = K in [Expect("a" >> `p`), "a" >> `q`]'),
+    ('let p = K in let q = K in (Val(v=p) << "1" | Val(v=q))', 'let p = K in let q = K in (("a" >> `p`) << "1" | ("a" >> `q`))'),
+    # ... and INSIDE a tuple (equal tuples of different values)
+    ('let s = ([`1`] |> `tuple`) in let t = ([`True`] |> `tuple`) in [Expect(Val(s)), Val(t)]',
+     'let s = ([`1`] |> `tuple`) in let t = ([`True`] |> `tuple`) in [Expect("a" >> `s`), "a" >> `t`]'),
+    ('let s = ([`1`, `0`] |> `tuple`) in let t = ([`True`, `False`] |> `tuple`) in [Expect(Val(v=t)), Val(v=s)]',
+     'let s = ([`1`, `0`] |> `tuple`) in let t = ([`True`, `False`] |> `tuple`) in [Expect("a" >> `t`), "a" >> `s`]'),
+    ('let p = ([K] |> `tuple`) in let q = ([K] |> `tuple`) in [Expect(Val(p)), Val(q)]',
+     'let p = ([K] |> `tuple`) in let q = ([K] |> `tuple`) in [Expect("a" >> `p`), "a" >> `q`]'),
     ('Wrap(x=/[ab]/, y=/[!?]/)', '/[!?]/ >> /[ab]/ << /[!?]/'),
     ('let n = /[ab]/ in Wrap(y="!", x=Eq(n))', 'let n = /[ab]/ in "!" >> (/[ab]/ where `lambda v: v == n`) << "!"'),
 ]
@@ -122,6 +137,18 @@ def run(R):
                 head2 = f'grammar c06g{gid + 1}\n' if named else ''
                 jobs.append((gid + 1, head2 + f'start = {expansion}\n' + TPRELUDE, TEXTS, {'role': 'expansion'}))
                 pairs[gid] = gid + 1
+            gid += 2
+        # the same call sites with blanks and tabs inside the backticks of every inline Python expression (how a name
+        # is found in inline Python must not depend on how the code is padded)
+        for site, expansion in SITES:
+            if '`' not in site or expansion is None:
+                continue
+            pad = lambda t: re.sub(r'`([^`]+)`', lambda m: '` ' + m.group(1) + '\t `', t)
+            head = f'grammar c06g{gid}\n' if named else ''
+            jobs.append((gid, head + f'start = {pad(site)}\n' + pad(TPRELUDE), TEXTS, {'role': 'call', 'named': named, 'site': pad(site)}))
+            head2 = f'grammar c06g{gid + 1}\n' if named else ''
+            jobs.append((gid + 1, head2 + f'start = {expansion}\n' + TPRELUDE, TEXTS, {'role': 'expansion'}))
+            pairs[gid] = gid + 1
             gid += 2
         for site in BAD_SITES:
             head = f'grammar c06g{gid}\n' if named else ''
